@@ -155,6 +155,16 @@ CHECKS.update({
             "DESIGN.md section 3 C02"),
 })
 
+CHECKS.update({
+    "C20": ("Selection / counts / targeting sentences only. Bounded symbolic execution of GraphQLSchema.get_all_operations, _should_skip, "
+            "_measure_statistic with symbolic chains of name filters (offered == root Query/Mutation fields passing the filters == counts), "
+            "of schema[root][field] over symbolic lookup sequences sharing the operation cache, and of the graphql_cases composite body with a stub "
+            "draw (every draw must request exactly its field, on its root type, under the current allow_null / allow_x00 settings). The validity of "
+            "documents produced by hypothesis_graphql (judged by graphql-core) cannot be executed symbolically and is NOT claimed.",
+            "CrossHair symbolic execution (z3) of GraphQLSchema.get_all_operations/_measure_statistic/FieldMap/graphql_cases body with stubbed generator",
+            "DESIGN.md section 3 C20"),
+})
+
 NOT_APPLICABLE = {
     "C13": "Seed reproducibility is a 2-run hyper-property of the whole program through Hypothesis' engine, its PRNG, identity-keyed caches and "
            "set iteration order; none of it can be made a symbolic variable of a bounded encoding, and the only solver-shaped fragment "
